@@ -36,7 +36,18 @@ Further ingredients
   * helpers of the filter class that wrap the predicate (`filter.is_python_file_to_parse(p)`) are not predicates themselves: their
     result is inlined like any other helper's;
   * a verdict that travels through a container or a variable assigned more than once cannot be followed: such an event is reported
-    as undecided (exit 2), never as a violation.
+    as undecided (exit 2), never as a violation;
+  * records: a generator that yields `Entry(path, flag, ...)` (NamedTuple / dataclass without a constructor of its own, also through
+    `yield from <itself>(child)`) produces, in `for entry in walk():`, the values `entry.path` (a path of its own, guarded by each
+    yield's guard) and `entry.flag` (atom REC.flag, fixed per yield to the truth of the yielded expression); the same holds inside a
+    helper whose parameter receives such a record at every call site;
+  * `x is None` / `x is not None` where x is the result of a repo helper that returns None on some paths: "not None" is the
+    disjunction of the path conditions of the helper's other `return <value>` statements (conjoined with an atom of its own unless
+    the value plainly is an object: constructor call, literal, `f.read()`, str(...), ...);
+  * os.walk with in-place pruning (`dirs[:] = [d for d in dirs if not excluded(root / d)]`, or a removal loop over a *copy*): no root
+    has an excluded directory above it, and when the start path is known not to be excluded where the walk begins no root is excluded
+    itself.  A removal loop over the list being iterated is not a pruning (it skips the entry after each removed one) and is named
+    in the VIOLATION.
 """
 
 from __future__ import annotations
@@ -374,8 +385,12 @@ class Facts:
         if name in self.params or len(bs) != 1 or bs[0][0] != "for" or bs[0][2] is not None:
             return None
         w = self.scan.generator_of(self.g, bs[0][1])
-        if w is None or any(isinstance(n, ast.YieldFrom) for n in own_nodes(w.node)):
+        if w is None:
             return None
+        for n in own_nodes(w.node):
+            # `yield from <the generator itself>(child)` adds no new kind of element; anything else delegated to is not followed
+            if isinstance(n, ast.YieldFrom) and not (isinstance(n.value, ast.Call) and self.scan.callees(w, n.value) == [w]):
+                return None
         ys = []
         for y in [n for n in own_nodes(w.node) if isinstance(n, ast.Yield)]:
             fields = self.scan.record_fields(w, y.value) if isinstance(y.value, ast.Call) else None
